@@ -313,6 +313,14 @@ class Interp:
         if isinstance(a, ObjV) and isinstance(b, ObjV) and (a is b or (a.tag is not None and a.tag == b.tag
                                                                        and a.cls == b.cls)):
             return a
+        if isinstance(a, ObjV) and isinstance(b, ObjV) and getattr(a, "_origin", a) is getattr(b, "_origin", b):
+            root = getattr(a, "_origin", a)
+            merged = {}
+            for k in set(a.attrs) | set(b.attrs):
+                x, y = a.attrs.get(k), b.attrs.get(k)
+                merged[k] = x if y is None else (y if x is None else self.join_cond(c, x, y))
+            root.attrs = merged
+            return root
         vals = []
         for x in (a.vals if isinstance(a, Alt) else [a]) + (b.vals if isinstance(b, Alt) else [b]):
             if not any(_same_abstract(x, y) for y in vals):
@@ -397,7 +405,9 @@ class Interp:
             if r is not None and st.orelse:
                 r = self.exec_block(st.orelse, env)
             outs = [r] if r is not None else []
-            for h in st.handlers:
+            # exception paths are explored only when the configuration asks for them: on the symbolic
+            # (non-empty, well-typed) inputs analysed, the probes in persim's try blocks do not raise
+            for h in (st.handlers if self.cfg.flags.get("exceptions") else []):
                 eh = dict(snap)
                 if h.name:
                     eh[h.name] = ObjV(None, tag="exception")
@@ -409,8 +419,10 @@ class Interp:
             res = outs[0]
             for o in outs[1:]:
                 res = self.join_envs(sym.Opq("config", (), "exception-raised"), res, o)
-            env.clear()
-            env.update(res)
+            if res is not env:
+                snap2 = dict(res)
+                env.clear()
+                env.update(snap2)
             if st.finalbody:
                 return self.exec_block(st.finalbody, env)
             return env
@@ -462,12 +474,12 @@ class Interp:
             # the fall-through path knows the negated condition from here on
             self.path.append(sym.Not(c))
             env.clear()
-            env.update(r2)
+            env.update(_commit_objects(r2))
             return env
         if r2 is None:
             self.path.append(c)
             env.clear()
-            env.update(r1)
+            env.update(_commit_objects(r1))
             return env
         j = self.join_envs(c, r1, r2)
         j["$reach"] = Sc(sym.Or(r1["$reach"].e, r2["$reach"].e)) if (
@@ -1512,6 +1524,19 @@ _DUNDER = {ast.Add: "__add__", ast.Sub: "__sub__", ast.Mult: "__mul__", ast.Div:
 _RDUNDER = {ast.Add: "__radd__", ast.Sub: "__rsub__", ast.Mult: "__rmul__", ast.Div: "__rtruediv__"}
 
 
+def _commit_objects(env: dict) -> dict:
+    """a branch clone of an object that survives alone becomes the state of the original object"""
+    out = {}
+    for k, v in env.items():
+        if isinstance(v, ObjV) and getattr(v, "_origin", None) is not None:
+            root = v._origin
+            root.attrs = v.attrs
+            out[k] = root
+        else:
+            out[k] = v
+    return out
+
+
 def _clone_env(env: dict) -> dict:
     """copy of an environment in which mutable abstract objects are duplicated, preserving aliasing"""
     memo = {}
@@ -1550,6 +1575,7 @@ def _clone_env(env: dict) -> dict:
             return n
         if isinstance(v, ObjV) and v.cls is not None:
             n = ObjV(v.cls, {}, v.tag)
+            n._origin = getattr(v, "_origin", v)  # the object every holder of a reference knows
             memo[k] = n
             n.attrs = {kk: cl(x) for kk, x in v.attrs.items()}
             return n
